@@ -73,7 +73,7 @@ def ob_add(n, timeout):
         try:
             tg.addTier(new, idx if useidx else None, "error" if strict else "silence")
         except errors.TextgridStateAutoModified:
-            if not strict or NAMES[nm] in model or not (n > 0 and nhi > M):
+            if not strict or NAMES[nm] in model or not (nhi > M):  # the textgrid's own span [0, M] is set whether or not it holds tiers
                 return "spurious TextgridStateAutoModified"
             return True if _state(tg) == before else "changed although addTier raised"
         except errors.TierNameExistsError:
@@ -82,7 +82,7 @@ def ob_add(n, timeout):
             return True if _state(tg) == before else "changed although addTier raised"
         if NAMES[nm] in model:
             return "duplicate name accepted"
-        if strict and n > 0 and nhi > M:
+        if strict and nhi > M:
             return "span change not reported under reportingMode='error'"
         if useidx:
             model.insert(idx, NAMES[nm])
